@@ -45,6 +45,9 @@ type tableDef struct {
 	Name  string
 	Cols  []string
 	Keys  [][]int // every key of the table; Keys[0] is index 0 in the schema
+	// Uniques are unique indexes: like keys, except that any number of rows
+	// may have all of these columns empty
+	Uniques [][]int
 	Fks   []fkDef
 	Admin string // the create statement handed to the implementation
 }
@@ -240,7 +243,7 @@ func (sc *schemaDef) apply(st mstate, o op, rd reading) (mstate, verdict) {
 }
 
 func (sc *schemaDef) dupKey(w mstate, t int, r row, except row) bool {
-	for _, k := range sc.Tables[t].Keys {
+	check := func(k []int) bool {
 		kt := tuple(r, k)
 		for _, x := range w[t] {
 			if except != nil && x.eq(except) {
@@ -249,6 +252,17 @@ func (sc *schemaDef) dupKey(w mstate, t int, r row, except row) bool {
 			if tuple(x, k) == kt {
 				return true
 			}
+		}
+		return false
+	}
+	for _, k := range sc.Tables[t].Keys {
+		if check(k) {
+			return true
+		}
+	}
+	for _, k := range sc.Tables[t].Uniques {
+		if !allEmpty(r, k) && check(k) {
+			return true
 		}
 	}
 	return false
@@ -367,15 +381,23 @@ func (sc *schemaDef) update(w mstate, t int, old, nw row, top bool, rd reading, 
 	}
 	td := &sc.Tables[t]
 	// key uniqueness
-	for _, k := range td.Keys {
+	uniq := func(k []int) {
 		if tuple(old, k) == tuple(nw, k) {
-			continue
+			return
 		}
 		kt := tuple(nw, k)
 		for _, x := range w[t] {
 			if !x.eq(old) && tuple(x, k) == kt {
 				v.refuse("dup")
 			}
+		}
+	}
+	for _, k := range td.Keys {
+		uniq(k)
+	}
+	for _, k := range td.Uniques {
+		if !allEmpty(nw, k) {
+			uniq(k)
 		}
 	}
 	// as a source row: the NEW row must have a matching target in the
@@ -491,6 +513,19 @@ func (sc *schemaDef) invariant(st mstate) string {
 				kt := tuple(r, k)
 				if seen[kt] {
 					return "duplicate key in " + sc.Tables[t].Name
+				}
+				seen[kt] = true
+			}
+		}
+		for _, k := range sc.Tables[t].Uniques {
+			seen := map[string]bool{}
+			for _, r := range st[t] {
+				if allEmpty(r, k) {
+					continue
+				}
+				kt := tuple(r, k)
+				if seen[kt] {
+					return "duplicate unique index value in " + sc.Tables[t].Name
 				}
 				seen[kt] = true
 			}
